@@ -296,17 +296,6 @@ func main() {
 			if math.Abs(m[0]-wx) > 1e-6 || math.Abs(m[1]-wy) > 1e-6 {
 				c.Failf("mercator-formula", "ToMercator(%v) = %v, closed form (%v,%v)", p, m, wx, wy)
 			}
-			// the scale factor: the local stretch of the projection, 1/cos(latitude), whatever the longitude; it is
-			// also the derivative of the projected y by the arc length along the meridian
-			if sf, want := project.MercatorScaleFactor(p), 1/math.Cos(lat*math.Pi/180); math.Abs(sf-want) > 1e-12*want || sf < 1 {
-				c.Failf("mercator-scale-factor", "MercatorScaleFactor(%v) = %v, 1/cos(latitude) = %v", p, sf, want)
-			} else if math.Abs(lat) < 84 {
-				h := 1e-4
-				up, dn := project.WGS84.ToMercator(orb.Point{lon, lat + h}), project.WGS84.ToMercator(orb.Point{lon, lat - h})
-				if num := (up[1] - dn[1]) / (2 * h * math.Pi / 180 * orb.EarthRadius); math.Abs(num-sf) > 1e-6*sf {
-					c.Failf("mercator-scale-factor", "MercatorScaleFactor(%v) = %v, the projection stretches the meridian by %v there", p, sf, num)
-				}
-			}
 		}
 		c.NonTrivial()
 	})
